@@ -1,1 +1,1640 @@
-//! (module owned by one property family; see AGENT_GUIDE.md)
+//! G-scope: programs over a 4-letter name alphabet that stress Lua's lexical scoping, plus the
+//! **scoping oracle** (a plain scope-stack walk over the generator's own AST) and a second
+//! printing mode ("xcheck") in which every declaration is bound to a distinct integer and every
+//! use is recorded through `__probe(use_id, name)`, so that the oracle can be validated against
+//! a real Lua implementation (luars) before it is used to judge /repo.
+//!
+//! Owned by the C13/C15/C41 family.
+
+use crate::rng::Rng;
+use std::collections::{BTreeMap, BTreeSet};
+
+pub const NAMES: [&str; 4] = ["a", "b", "c", "d"];
+pub const FIELDS: [&str; 3] = ["x", "y", "z"];
+
+/// One occurrence of a name (declaration or use); `id` is unique in the program and >= 1.
+#[derive(Clone, Debug, PartialEq)]
+pub struct Occ {
+    pub name: u8,
+    pub id: u32,
+}
+
+#[derive(Clone, Copy, Debug, PartialEq, Eq)]
+pub enum Attrib {
+    None,
+    Const,
+    Close,
+}
+
+#[derive(Clone, Debug, PartialEq)]
+pub enum Expr {
+    Use(Occ),
+    Int(i64),
+    Str(u8),
+    Nil,
+    True,
+    Bin(&'static str, Box<Expr>, Box<Expr>),
+    Not(Box<Expr>),
+    Call(Box<Expr>, Vec<Expr>),
+    Index(Box<Expr>, u8),
+    Func(Box<FuncBody>),
+    Table(Vec<(Option<u8>, Expr)>),
+    Paren(Box<Expr>),
+}
+
+#[derive(Clone, Debug, PartialEq)]
+pub struct FuncBody {
+    pub params: Vec<Occ>,
+    pub body: Vec<Stmt>,
+}
+
+#[derive(Clone, Debug, PartialEq)]
+pub enum Target {
+    Name(Occ),
+    Field(Expr, u8),
+}
+
+#[derive(Clone, Debug, PartialEq)]
+pub struct Stmt {
+    pub sid: u32,
+    pub kind: StmtKind,
+}
+
+#[derive(Clone, Debug, PartialEq)]
+pub enum StmtKind {
+    Local { names: Vec<(Occ, Attrib)>, exprs: Vec<Expr> },
+    Assign { targets: Vec<Target>, exprs: Vec<Expr> },
+    LocalFunc { name: Occ, func: FuncBody },
+    /// `function name[.path…][:method](params) body end` — `name` is a *use*.
+    Func { name: Occ, path: Vec<u8>, method: Option<u8>, func: FuncBody },
+    CallStat(Expr),
+    Do(Vec<Stmt>),
+    While(Expr, Vec<Stmt>),
+    Repeat(Vec<Stmt>, Expr),
+    If(Vec<(Expr, Vec<Stmt>)>, Option<Vec<Stmt>>),
+    NumFor { var: Occ, start: Expr, limit: Expr, step: Option<Expr>, body: Vec<Stmt> },
+    GenFor { vars: Vec<Occ>, exprs: Vec<Expr>, body: Vec<Stmt> },
+    Return(Vec<Expr>),
+    Break,
+}
+
+#[derive(Clone, Debug, PartialEq)]
+pub struct Program {
+    pub body: Vec<Stmt>,
+}
+
+// ───────────────────────────── generator ─────────────────────────────
+
+#[derive(Clone, Copy, PartialEq, Eq, Debug)]
+enum GKind {
+    Plain,
+    /// must not be assigned (for-loop variables are read-only in Lua 5.5; <const>/<close> locals)
+    ReadOnly,
+}
+
+struct Gen<'a> {
+    rng: &'a mut Rng,
+    next_occ: u32,
+    next_sid: u32,
+    budget: i32,
+    /// generator-side scope tracking, only to avoid assignments to read-only variables
+    scopes: Vec<Vec<(u8, GKind)>>,
+    loop_depth: Vec<u32>,
+}
+
+impl<'a> Gen<'a> {
+    fn occ(&mut self, name: u8) -> Occ {
+        self.next_occ += 1;
+        Occ { name, id: self.next_occ }
+    }
+    fn name(&mut self) -> u8 {
+        // skewed: collisions are the point
+        match self.rng.below(10) {
+            0..=4 => 0,
+            5..=7 => 1,
+            8 => 2,
+            _ => 3,
+        }
+    }
+    fn sid(&mut self) -> u32 {
+        self.next_sid += 1;
+        self.next_sid
+    }
+    fn lookup(&self, name: u8) -> Option<GKind> {
+        for fr in self.scopes.iter().rev() {
+            for (n, k) in fr.iter().rev() {
+                if *n == name {
+                    return Some(*k);
+                }
+            }
+        }
+        None
+    }
+    fn assignable_name(&mut self) -> Option<u8> {
+        for _ in 0..6 {
+            let n = self.name();
+            if self.lookup(n) != Some(GKind::ReadOnly) {
+                return Some(n);
+            }
+        }
+        None
+    }
+    fn declare(&mut self, name: u8, k: GKind) {
+        self.scopes.last_mut().unwrap().push((name, k));
+    }
+
+    fn leaf(&mut self) -> Expr {
+        match self.rng.below(10) {
+            0..=5 => {
+                let n = self.name();
+                Expr::Use(self.occ(n))
+            }
+            6..=7 => Expr::Int(self.rng.below(4) as i64),
+            8 => Expr::Str(self.rng.below(3) as u8),
+            _ => {
+                if self.rng.bool() {
+                    Expr::Nil
+                } else {
+                    Expr::True
+                }
+            }
+        }
+    }
+
+    fn expr(&mut self, depth: u32) -> Expr {
+        if depth == 0 || self.rng.chance(1, 2) {
+            return self.leaf();
+        }
+        match self.rng.below(12) {
+            0..=3 => {
+                let op = self.rng.pick(&["+", "..", "==", "and", "or", "<"]);
+                Expr::Bin(op, Box::new(self.expr(depth - 1)), Box::new(self.expr(depth - 1)))
+            }
+            4 => Expr::Not(Box::new(self.expr(depth - 1))),
+            5..=6 => {
+                let callee = self.callee(depth - 1);
+                let n = self.rng.below(3);
+                let args = (0..n).map(|_| self.expr(depth - 1)).collect();
+                Expr::Call(Box::new(callee), args)
+            }
+            7 => {
+                let p = self.prefix(depth - 1);
+                Expr::Index(Box::new(p), self.rng.below(3) as u8)
+            }
+            8..=9 => Expr::Func(Box::new(self.func_body(false))),
+            10 => {
+                let n = self.rng.below(3);
+                let fields = (0..n)
+                    .map(|_| {
+                        let k = if self.rng.bool() { Some(self.rng.below(3) as u8) } else { None };
+                        (k, self.expr(depth - 1))
+                    })
+                    .collect();
+                Expr::Table(fields)
+            }
+            _ => Expr::Paren(Box::new(self.expr(depth - 1))),
+        }
+    }
+
+    fn prefix(&mut self, depth: u32) -> Expr {
+        let n = self.name();
+        let base = Expr::Use(self.occ(n));
+        if depth > 0 && self.rng.chance(1, 4) {
+            Expr::Index(Box::new(base), self.rng.below(3) as u8)
+        } else {
+            base
+        }
+    }
+
+    fn callee(&mut self, depth: u32) -> Expr {
+        if depth > 0 && self.rng.chance(1, 6) {
+            Expr::Paren(Box::new(Expr::Func(Box::new(self.func_body(false)))))
+        } else {
+            self.prefix(depth)
+        }
+    }
+
+    fn func_body(&mut self, implicit_self: bool) -> FuncBody {
+        let _ = implicit_self;
+        let np = match self.rng.below(6) {
+            0 => 0,
+            1..=3 => 1,
+            4 => 2,
+            _ => 3,
+        };
+        self.scopes.push(Vec::new());
+        let saved_loops = std::mem::take(&mut self.loop_depth);
+        let mut params = Vec::new();
+        for _ in 0..np {
+            let n = self.name();
+            params.push(self.occ(n));
+            self.declare(n, GKind::Plain);
+        }
+        let n_stmts = self.rng.range(0, 3);
+        let mut body = self.block_inner(n_stmts, 2);
+        if self.rng.chance(1, 3) {
+            let e = self.expr(1);
+            let sid = self.sid();
+            body.push(Stmt { sid, kind: StmtKind::Return(vec![e]) });
+        }
+        self.loop_depth = saved_loops;
+        self.scopes.pop();
+        FuncBody { params, body }
+    }
+
+    /// statements of one block, generated in the *current* frame (caller pushes/pops)
+    fn block_inner(&mut self, n: usize, depth: u32) -> Vec<Stmt> {
+        let mut out = Vec::new();
+        for _ in 0..n {
+            if self.budget <= 0 {
+                break;
+            }
+            self.budget -= 1;
+            out.push(self.stmt(depth));
+        }
+        out
+    }
+
+    fn block(&mut self, depth: u32) -> Vec<Stmt> {
+        self.scopes.push(Vec::new());
+        let n = self.rng.range(0, 3);
+        let b = self.block_inner(n, depth);
+        self.scopes.pop();
+        b
+    }
+
+    fn maybe_break(&mut self, body: &mut Vec<Stmt>) {
+        if self.rng.chance(1, 8) {
+            let sid = self.sid();
+            body.push(Stmt { sid, kind: StmtKind::Break });
+        }
+    }
+
+    fn stmt(&mut self, depth: u32) -> Stmt {
+        let sid = self.sid();
+        let compound_ok = depth > 0;
+        let roll = self.rng.below(if compound_ok { 30 } else { 16 });
+        let kind = match roll {
+            0..=5 => {
+                // local statement: 1–3 names, 0–3 exprs, duplicates likely
+                let nn: usize = match self.rng.below(6) {
+                    0..=2 => 1,
+                    3..=4 => 2,
+                    _ => 3,
+                };
+                let ne = match self.rng.below(6) {
+                    0 => 0,
+                    1..=3 => nn,
+                    4 => nn.saturating_sub(1).max(1),
+                    _ => nn + 1,
+                };
+                let exprs: Vec<Expr> = (0..ne).map(|_| self.expr(2)).collect();
+                let mut names = Vec::new();
+                let mut close_used = false;
+                for _ in 0..nn {
+                    let n = self.name();
+                    let attr = match self.rng.below(12) {
+                        0 => Attrib::Const,
+                        1 if !close_used && false => Attrib::Close,
+                        _ => Attrib::None,
+                    };
+                    if attr == Attrib::Close {
+                        close_used = true;
+                    }
+                    names.push((self.occ(n), attr));
+                }
+                for (o, a) in &names {
+                    let k = if *a == Attrib::None { GKind::Plain } else { GKind::ReadOnly };
+                    self.scopes.last_mut().unwrap().push((o.name, k));
+                }
+                StmtKind::Local { names, exprs }
+            }
+            6..=8 => {
+                let nt = if self.rng.chance(1, 4) { 2 } else { 1 };
+                let mut targets = Vec::new();
+                for _ in 0..nt {
+                    if self.rng.chance(1, 4) {
+                        let p = self.prefix(0);
+                        targets.push(Target::Field(p, self.rng.below(3) as u8));
+                    } else if let Some(n) = self.assignable_name() {
+                        targets.push(Target::Name(self.occ(n)));
+                    } else {
+                        let p = self.prefix(0);
+                        targets.push(Target::Field(p, 0));
+                    }
+                }
+                let ne = self.rng.range(1, nt);
+                let exprs = (0..ne).map(|_| self.expr(2)).collect();
+                StmtKind::Assign { targets, exprs }
+            }
+            9..=11 => {
+                let n = self.name();
+                let name = self.occ(n);
+                // the name is in scope inside its own body
+                self.declare(n, GKind::Plain);
+                let func = self.func_body(false);
+                StmtKind::LocalFunc { name, func }
+            }
+            12..=13 => {
+                let plain = self.rng.chance(1, 2);
+                if plain {
+                    match self.assignable_name() {
+                        Some(n) => {
+                            let name = self.occ(n);
+                            let func = self.func_body(false);
+                            StmtKind::Func { name, path: vec![], method: None, func }
+                        }
+                        None => StmtKind::CallStat(Expr::Call(Box::new(self.prefix(0)), vec![])),
+                    }
+                } else {
+                    let n = self.name();
+                    let name = self.occ(n);
+                    let np = self.rng.below(2);
+                    let path: Vec<u8> = (0..np).map(|_| self.rng.below(3) as u8).collect();
+                    let method = if self.rng.bool() || path.is_empty() { Some(self.rng.below(3) as u8) } else { None };
+                    let (path, method) = if path.is_empty() && method.is_none() { (vec![0u8], None) } else { (path, method) };
+                    let func = self.func_body(method.is_some());
+                    StmtKind::Func { name, path, method, func }
+                }
+            }
+            14..=15 => {
+                let callee = self.prefix(1);
+                let n = self.rng.below(3);
+                let args = (0..n).map(|_| self.expr(2)).collect();
+                StmtKind::CallStat(Expr::Call(Box::new(callee), args))
+            }
+            16..=17 => StmtKind::Do(self.block(depth - 1)),
+            18..=19 => {
+                let c = self.expr(2);
+                self.loop_depth.push(0);
+                self.scopes.push(Vec::new());
+                let n = self.rng.range(0, 3);
+                let mut b = self.block_inner(n, depth - 1);
+                self.maybe_break(&mut b);
+                self.scopes.pop();
+                self.loop_depth.pop();
+                StmtKind::While(c, b)
+            }
+            20..=22 => {
+                // repeat: body locals are visible in the condition
+                self.loop_depth.push(0);
+                self.scopes.push(Vec::new());
+                let n = self.rng.range(1, 3);
+                let b = self.block_inner(n, depth - 1);
+                let c = self.expr(2);
+                self.scopes.pop();
+                self.loop_depth.pop();
+                StmtKind::Repeat(b, c)
+            }
+            23..=24 => {
+                let arms = self.rng.range(1, 3);
+                let mut v = Vec::new();
+                for _ in 0..arms {
+                    let c = self.expr(2);
+                    let b = self.block(depth - 1);
+                    v.push((c, b));
+                }
+                let els = if self.rng.bool() { Some(self.block(depth - 1)) } else { None };
+                StmtKind::If(v, els)
+            }
+            25..=27 => {
+                let start = self.expr(1);
+                let limit = self.expr(1);
+                let step = if self.rng.chance(1, 3) { Some(self.expr(1)) } else { None };
+                let n = self.name();
+                let var = self.occ(n);
+                self.loop_depth.push(0);
+                self.scopes.push(vec![(n, GKind::ReadOnly)]);
+                self.scopes.push(Vec::new());
+                let k = self.rng.range(0, 3);
+                let mut body = self.block_inner(k, depth - 1);
+                self.maybe_break(&mut body);
+                self.scopes.pop();
+                self.scopes.pop();
+                self.loop_depth.pop();
+                StmtKind::NumFor { var, start, limit, step, body }
+            }
+            _ => {
+                let ne = self.rng.range(1, 3);
+                let exprs: Vec<Expr> = (0..ne).map(|_| self.expr(1)).collect();
+                let nv = self.rng.range(1, 3);
+                let mut vars = Vec::new();
+                let mut frame = Vec::new();
+                for _ in 0..nv {
+                    let n = self.name();
+                    vars.push(self.occ(n));
+                    frame.push((n, GKind::ReadOnly));
+                }
+                self.loop_depth.push(0);
+                self.scopes.push(frame);
+                self.scopes.push(Vec::new());
+                let k = self.rng.range(0, 3);
+                let mut body = self.block_inner(k, depth - 1);
+                self.maybe_break(&mut body);
+                self.scopes.pop();
+                self.scopes.pop();
+                self.loop_depth.pop();
+                StmtKind::GenFor { vars, exprs, body }
+            }
+        };
+        Stmt { sid, kind }
+    }
+}
+
+/// Generate a G-scope program with roughly `size` statements.
+pub fn gen_program(rng: &mut Rng, size: usize) -> Program {
+    let mut g = Gen { rng, next_occ: 0, next_sid: 0, budget: size as i32, scopes: vec![Vec::new()], loop_depth: vec![] };
+    let mut body = Vec::new();
+    while g.budget > 0 {
+        g.budget -= 1;
+        body.push(g.stmt(3));
+    }
+    if g.rng.chance(1, 4) {
+        let e = g.expr(1);
+        let sid = g.sid();
+        body.push(Stmt { sid, kind: StmtKind::Return(vec![e]) });
+    }
+    Program { body }
+}
+
+// ───────────────────────────── printer ─────────────────────────────
+
+#[derive(Clone, Copy, PartialEq, Eq, Debug)]
+pub enum Mode {
+    /// ordinary Lua text (analysed by the code under test, compiled by luars)
+    Normal,
+    /// every declaration bound to its occurrence id, every use wrapped in `__probe(id, name)`
+    XCheck,
+}
+
+#[derive(Clone, Debug, Default)]
+pub struct Printed {
+    pub text: String,
+    /// byte offset of the name token of every declaration occurrence
+    pub decl_off: BTreeMap<u32, usize>,
+    /// byte offset of the name token of every use occurrence
+    pub use_off: BTreeMap<u32, usize>,
+}
+
+pub const XCHECK_PRELUDE: &str = "a, b, c, d = -1, -2, -3, -4\n\
+local __cnt = {}\n\
+function __e(...) return 0 end\n\
+function __d(n, ...) local t = {...}; return table.unpack(t, 1, n) end\n\
+function __c(f, ...) f(...); return 0 end\n\
+function __w(id, ...) __cnt[id] = (__cnt[id] or 0) + 1; return __cnt[id] % 2 == 1 end\n\
+function __t(i, ...) return __run == i end\n\
+function __r(...) return true end\n\
+function __s(v, ...) return v end\n\
+function __it(n, ...) local t = {...}; local done = false; return function() if done then return nil end; done = true; return table.unpack(t, 1, n) end end\n";
+
+struct Pr {
+    mode: Mode,
+    out: Printed,
+    ind: usize,
+}
+
+impl Pr {
+    fn w(&mut self, s: &str) {
+        self.out.text.push_str(s);
+    }
+    fn nl(&mut self) {
+        self.out.text.push('\n');
+        for _ in 0..self.ind {
+            self.out.text.push_str("  ");
+        }
+    }
+    fn decl(&mut self, o: &Occ) {
+        self.out.decl_off.insert(o.id, self.out.text.len());
+        self.w(NAMES[o.name as usize]);
+    }
+    fn use_(&mut self, o: &Occ) {
+        if self.mode == Mode::XCheck {
+            self.w(&format!("__probe({}, ", o.id));
+            self.out.use_off.insert(o.id, self.out.text.len());
+            self.w(NAMES[o.name as usize]);
+            self.w(")");
+        } else {
+            self.out.use_off.insert(o.id, self.out.text.len());
+            self.w(NAMES[o.name as usize]);
+        }
+    }
+    fn exprs(&mut self, es: &[Expr]) {
+        for (i, e) in es.iter().enumerate() {
+            if i > 0 {
+                self.w(", ");
+            }
+            self.expr(e);
+        }
+    }
+    /// xcheck: `, e1, e2` (leading comma) for a possibly empty list
+    fn xlist(&mut self, es: &[&Expr]) {
+        for e in es {
+            self.w(", ");
+            self.expr(e);
+        }
+    }
+    fn func(&mut self, f: &FuncBody, explicit_self: bool) {
+        self.w("function(");
+        let mut first = true;
+        if explicit_self {
+            self.w("self");
+            first = false;
+        }
+        for p in &f.params {
+            if !first {
+                self.w(", ");
+            }
+            first = false;
+            self.decl(p);
+        }
+        self.w(")");
+        self.block(&f.body);
+        self.nl();
+        self.w("end");
+    }
+    fn func_tail(&mut self, f: &FuncBody) {
+        // "(params) body end" after `function name`
+        self.w("(");
+        for (i, p) in f.params.iter().enumerate() {
+            if i > 0 {
+                self.w(", ");
+            }
+            self.decl(p);
+        }
+        self.w(")");
+        self.block(&f.body);
+        self.nl();
+        self.w("end");
+    }
+    fn param_ids(&mut self, f: &FuncBody, explicit_self: bool) {
+        if explicit_self {
+            self.w(", 0");
+        }
+        for p in &f.params {
+            self.w(&format!(", {}", p.id));
+        }
+    }
+    fn expr(&mut self, e: &Expr) {
+        if self.mode == Mode::XCheck {
+            match e {
+                Expr::Use(o) => self.use_(o),
+                Expr::Int(_) | Expr::Str(_) | Expr::Nil | Expr::True => self.w("0"),
+                Expr::Bin(_, l, r) => {
+                    self.w("__e(0");
+                    self.xlist(&[l, r]);
+                    self.w(")");
+                }
+                Expr::Not(x) | Expr::Paren(x) | Expr::Index(x, _) => {
+                    self.w("__e(0");
+                    self.xlist(&[x]);
+                    self.w(")");
+                }
+                Expr::Call(f, args) => {
+                    self.w("__e(0");
+                    self.xlist(&[f]);
+                    let v: Vec<&Expr> = args.iter().collect();
+                    self.xlist(&v);
+                    self.w(")");
+                }
+                Expr::Table(fs) => {
+                    self.w("__e(0");
+                    let v: Vec<&Expr> = fs.iter().map(|(_, e)| e).collect();
+                    self.xlist(&v);
+                    self.w(")");
+                }
+                Expr::Func(f) => {
+                    self.w("__c(");
+                    self.func(f, false);
+                    self.param_ids(f, false);
+                    self.w(")");
+                }
+            }
+            return;
+        }
+        match e {
+            Expr::Use(o) => self.use_(o),
+            Expr::Int(i) => self.w(&i.to_string()),
+            Expr::Str(i) => self.w(["\"s\"", "'t'", "[[u]]"][*i as usize % 3]),
+            Expr::Nil => self.w("nil"),
+            Expr::True => self.w("true"),
+            Expr::Bin(op, l, r) => {
+                self.w("(");
+                self.expr(l);
+                self.w(&format!(" {op} "));
+                self.expr(r);
+                self.w(")");
+            }
+            Expr::Not(x) => {
+                self.w("(not ");
+                self.expr(x);
+                self.w(")");
+            }
+            Expr::Call(f, args) => {
+                self.callee(f);
+                self.w("(");
+                self.exprs(args);
+                self.w(")");
+            }
+            Expr::Index(p, f) => {
+                self.callee(p);
+                self.w(".");
+                self.w(FIELDS[*f as usize % 3]);
+            }
+            Expr::Func(f) => self.func(f, false),
+            Expr::Table(fs) => {
+                self.w("{");
+                for (i, (k, v)) in fs.iter().enumerate() {
+                    if i > 0 {
+                        self.w(", ");
+                    }
+                    if let Some(k) = k {
+                        self.w(FIELDS[*k as usize % 3]);
+                        self.w(" = ");
+                    }
+                    self.expr(v);
+                }
+                self.w("}");
+            }
+            Expr::Paren(x) => {
+                self.w("(");
+                self.expr(x);
+                self.w(")");
+            }
+        }
+    }
+    /// print an expression in prefix-expression position
+    fn callee(&mut self, e: &Expr) {
+        match e {
+            Expr::Use(_) | Expr::Index(..) | Expr::Call(..) | Expr::Paren(_) => self.expr(e),
+            _ => {
+                self.w("(");
+                self.expr(e);
+                self.w(")");
+            }
+        }
+    }
+    fn block(&mut self, b: &[Stmt]) {
+        self.ind += 1;
+        for s in b {
+            self.nl();
+            self.stmt(s);
+        }
+        self.ind -= 1;
+    }
+    fn stmt(&mut self, s: &Stmt) {
+        let x = self.mode == Mode::XCheck;
+        match &s.kind {
+            StmtKind::Local { names, exprs } => {
+                self.w("local ");
+                for (i, (o, a)) in names.iter().enumerate() {
+                    if i > 0 {
+                        self.w(", ");
+                    }
+                    self.decl(o);
+                    match a {
+                        Attrib::None => {}
+                        Attrib::Const => self.w(" <const>"),
+                        Attrib::Close => self.w(if x { " <const>" } else { " <close>" }),
+                    }
+                }
+                if x {
+                    self.w(&format!(" = __d({}", names.len()));
+                    for (o, _) in names {
+                        self.w(&format!(", {}", o.id));
+                    }
+                    let v: Vec<&Expr> = exprs.iter().collect();
+                    self.xlist(&v);
+                    self.w(")");
+                } else if !exprs.is_empty() {
+                    self.w(" = ");
+                    self.exprs(exprs);
+                }
+            }
+            StmtKind::Assign { targets, exprs } => {
+                if x {
+                    let names: Vec<&Occ> = targets.iter().filter_map(|t| if let Target::Name(o) = t { Some(o) } else { None }).collect();
+                    if names.is_empty() {
+                        self.w("__e(0");
+                    } else {
+                        for (i, o) in names.iter().enumerate() {
+                            if i > 0 {
+                                self.w(", ");
+                            }
+                            // plain name on the left-hand side: recorded through the value list
+                            self.w(NAMES[o.name as usize]);
+                        }
+                        self.w(&format!(" = __d({}", names.len()));
+                        for o in &names {
+                            self.w(", ");
+                            self.use_(o);
+                        }
+                    }
+                    for t in targets {
+                        if let Target::Field(p, _) = t {
+                            self.xlist(&[p]);
+                        }
+                    }
+                    let v: Vec<&Expr> = exprs.iter().collect();
+                    self.xlist(&v);
+                    self.w(")");
+                } else {
+                    for (i, t) in targets.iter().enumerate() {
+                        if i > 0 {
+                            self.w(", ");
+                        }
+                        match t {
+                            Target::Name(o) => self.use_(o),
+                            Target::Field(p, f) => {
+                                self.callee(p);
+                                self.w(".");
+                                self.w(FIELDS[*f as usize % 3]);
+                            }
+                        }
+                    }
+                    self.w(" = ");
+                    self.exprs(exprs);
+                }
+            }
+            StmtKind::LocalFunc { name, func } => {
+                self.w("local function ");
+                self.decl(name);
+                self.func_tail(func);
+                if x {
+                    // bind the name to its id *after* the definition (the body sees the variable,
+                    // not the value) and then run the body once with the parameters' ids
+                    let n = NAMES[name.name as usize];
+                    self.w(&format!("; __tmp = {n}; {n} = {}; __c(__tmp", name.id));
+                    self.param_ids(func, false);
+                    self.w(")");
+                }
+            }
+            StmtKind::Func { name, path, method, func } => {
+                if x {
+                    let assigns = path.is_empty() && method.is_none();
+                    if assigns {
+                        self.w(NAMES[name.name as usize]);
+                        self.w(" = __d(1, ");
+                        self.use_(name);
+                    } else {
+                        self.w("__e(0, ");
+                        self.use_(name);
+                    }
+                    self.w(", __c(");
+                    self.func(func, method.is_some());
+                    self.param_ids(func, method.is_some());
+                    self.w("))");
+                } else {
+                    self.w("function ");
+                    self.use_(name);
+                    for p in path {
+                        self.w(".");
+                        self.w(FIELDS[*p as usize % 3]);
+                    }
+                    if let Some(m) = method {
+                        self.w(":");
+                        self.w(FIELDS[*m as usize % 3]);
+                    }
+                    self.func_tail(func);
+                }
+            }
+            StmtKind::CallStat(e) => {
+                if x {
+                    self.w("__e(0");
+                    self.xlist(&[e]);
+                    self.w(")");
+                } else {
+                    self.expr(e);
+                }
+            }
+            StmtKind::Do(b) => {
+                self.w("do");
+                self.block(b);
+                self.nl();
+                self.w("end");
+            }
+            StmtKind::While(c, b) => {
+                self.w("while ");
+                if x {
+                    self.w(&format!("__w({}", s.sid));
+                    self.xlist(&[c]);
+                    self.w(")");
+                } else {
+                    self.expr(c);
+                }
+                self.w(" do");
+                self.block(b);
+                self.nl();
+                self.w("end");
+            }
+            StmtKind::Repeat(b, c) => {
+                self.w("repeat");
+                self.block(b);
+                self.nl();
+                self.w("until ");
+                if x {
+                    self.w("__r(0");
+                    self.xlist(&[c]);
+                    self.w(")");
+                } else {
+                    self.expr(c);
+                }
+            }
+            StmtKind::If(arms, els) => {
+                for (i, (c, b)) in arms.iter().enumerate() {
+                    self.w(if i == 0 { "if " } else { "elseif " });
+                    if x {
+                        self.w(&format!("__t({i}"));
+                        self.xlist(&[c]);
+                        self.w(")");
+                    } else {
+                        self.expr(c);
+                    }
+                    self.w(" then");
+                    self.block(b);
+                    self.nl();
+                }
+                if let Some(b) = els {
+                    self.w("else");
+                    self.block(b);
+                    self.nl();
+                }
+                self.w("end");
+            }
+            StmtKind::NumFor { var, start, limit, step, body } => {
+                self.w("for ");
+                self.decl(var);
+                self.w(" = ");
+                if x {
+                    self.w(&format!("__s({}", var.id));
+                    self.xlist(&[start]);
+                    self.w(&format!("), __s({}", var.id));
+                    self.xlist(&[limit]);
+                    self.w(")");
+                    if let Some(st) = step {
+                        self.w(", __s(1");
+                        self.xlist(&[st]);
+                        self.w(")");
+                    }
+                } else {
+                    self.expr(start);
+                    self.w(", ");
+                    self.expr(limit);
+                    if let Some(st) = step {
+                        self.w(", ");
+                        self.expr(st);
+                    }
+                }
+                self.w(" do");
+                self.block(body);
+                self.nl();
+                self.w("end");
+            }
+            StmtKind::GenFor { vars, exprs, body } => {
+                self.w("for ");
+                for (i, v) in vars.iter().enumerate() {
+                    if i > 0 {
+                        self.w(", ");
+                    }
+                    self.decl(v);
+                }
+                self.w(" in ");
+                if x {
+                    self.w(&format!("__it({}", vars.len()));
+                    for v in vars {
+                        self.w(&format!(", {}", v.id));
+                    }
+                    let v: Vec<&Expr> = exprs.iter().collect();
+                    self.xlist(&v);
+                    self.w(")");
+                } else {
+                    self.exprs(exprs);
+                }
+                self.w(" do");
+                self.block(body);
+                self.nl();
+                self.w("end");
+            }
+            StmtKind::Return(es) => {
+                self.w("return ");
+                if x {
+                    self.w("__e(0");
+                    let v: Vec<&Expr> = es.iter().collect();
+                    self.xlist(&v);
+                    self.w(")");
+                } else {
+                    self.exprs(es);
+                }
+            }
+            StmtKind::Break => self.w("break"),
+        }
+    }
+}
+
+/// Print the program. In `XCheck` mode the text starts with `__run = <run>` and the prelude.
+pub fn print(p: &Program, mode: Mode, run: u32) -> Printed {
+    let mut pr = Pr { mode, out: Printed::default(), ind: 0 };
+    if mode == Mode::XCheck {
+        pr.w(&format!("__run = {run}\n"));
+        pr.w(XCHECK_PRELUDE);
+    }
+    for s in &p.body {
+        pr.stmt(s);
+        pr.w("\n");
+    }
+    pr.out
+}
+
+// ───────────────────────────── scoping oracle ─────────────────────────────
+
+#[derive(Clone, Copy, Debug, PartialEq, Eq, PartialOrd, Ord)]
+pub enum DeclKind {
+    Local,
+    LocalFunc,
+    Param,
+    NumForVar,
+    GenForVar,
+}
+
+impl DeclKind {
+    pub fn tag(self) -> &'static str {
+        match self {
+            DeclKind::Local => "local",
+            DeclKind::LocalFunc => "local-function",
+            DeclKind::Param => "param",
+            DeclKind::NumForVar => "numeric-for-var",
+            DeclKind::GenForVar => "generic-for-var",
+        }
+    }
+}
+
+#[derive(Clone, Debug)]
+pub struct DeclInfo {
+    pub id: u32,
+    pub name: u8,
+    pub kind: DeclKind,
+    /// statement (or, for params, the statement containing the function) that declares it
+    pub sid: u32,
+    /// identifies the declaration list (statement sid for locals/for-vars, first param id for params)
+    pub list: u32,
+}
+
+#[derive(Clone, Debug)]
+pub struct UseInfo {
+    pub id: u32,
+    pub name: u8,
+    /// syntactic slot in which the use sits (innermost statement)
+    pub ctx: &'static str,
+    /// innermost statement containing the use
+    pub sid: u32,
+    /// the oracle's answer: Some(decl occurrence id) or None = global
+    pub binding: Option<u32>,
+    /// other declarations of the same name on the scope chain at this point (shadowed), nearest first
+    pub shadowed: Vec<u32>,
+    /// the use sits inside the body of the `local function` that it resolves to
+    pub in_own_local_function: bool,
+    /// the use sits in a repeat-until condition and resolves to a local of that repeat body
+    pub repeat_body_local: bool,
+    /// statements in whose *header* (for start/limit/step, generic-for explist, local right-hand
+    /// side) the use sits, directly or nested inside closures: (statement id, header kind)
+    pub in_headers: Vec<(u32, &'static str)>,
+}
+
+#[derive(Clone, Debug, Default)]
+pub struct Resolution {
+    pub decls: BTreeMap<u32, DeclInfo>,
+    pub uses: BTreeMap<u32, UseInfo>,
+}
+
+struct Walk {
+    res: Resolution,
+    /// scope chain: frames of (name, decl id), innermost last
+    frames: Vec<Vec<(u8, u32)>>,
+    /// stack of local-function decl ids whose body we are inside
+    in_local_funcs: Vec<u32>,
+    headers: Vec<(u32, &'static str)>,
+}
+
+impl Walk {
+    fn push(&mut self) {
+        self.frames.push(Vec::new());
+    }
+    fn pop(&mut self) {
+        self.frames.pop();
+    }
+    fn declare(&mut self, o: &Occ, kind: DeclKind, sid: u32, list: u32) {
+        self.res.decls.insert(o.id, DeclInfo { id: o.id, name: o.name, kind, sid, list });
+        self.frames.last_mut().unwrap().push((o.name, o.id));
+    }
+    fn use_(&mut self, o: &Occ, ctx: &'static str, sid: u32, repeat_frame: Option<usize>) {
+        let mut found: Vec<(u32, usize)> = Vec::new();
+        for (fi, fr) in self.frames.iter().enumerate().rev() {
+            for (n, id) in fr.iter().rev() {
+                if *n == o.name {
+                    found.push((*id, fi));
+                }
+            }
+        }
+        let binding = found.first().map(|x| x.0);
+        let in_own = binding.is_some_and(|b| self.in_local_funcs.contains(&b));
+        let repeat_body_local = match (found.first(), repeat_frame) {
+            (Some((_, fi)), Some(rf)) => *fi == rf,
+            _ => false,
+        };
+        self.res.uses.insert(
+            o.id,
+            UseInfo {
+                id: o.id,
+                name: o.name,
+                ctx,
+                sid,
+                binding,
+                shadowed: found.iter().skip(1).map(|x| x.0).collect(),
+                in_own_local_function: in_own,
+                repeat_body_local,
+                in_headers: self.headers.clone(),
+            },
+        );
+    }
+    fn expr(&mut self, e: &Expr, ctx: &'static str, sid: u32, rf: Option<usize>) {
+        match e {
+            Expr::Use(o) => self.use_(o, ctx, sid, rf),
+            Expr::Int(_) | Expr::Str(_) | Expr::Nil | Expr::True => {}
+            Expr::Bin(_, l, r) => {
+                self.expr(l, ctx, sid, rf);
+                self.expr(r, ctx, sid, rf);
+            }
+            Expr::Not(x) | Expr::Paren(x) | Expr::Index(x, _) => self.expr(x, ctx, sid, rf),
+            Expr::Call(f, args) => {
+                self.expr(f, ctx, sid, rf);
+                for a in args {
+                    self.expr(a, ctx, sid, rf);
+                }
+            }
+            Expr::Table(fs) => {
+                for (_, v) in fs {
+                    self.expr(v, ctx, sid, rf);
+                }
+            }
+            Expr::Func(f) => self.func(f, sid),
+        }
+    }
+    fn func(&mut self, f: &FuncBody, sid: u32) {
+        self.push();
+        let list = f.params.first().map(|p| p.id).unwrap_or(0);
+        for p in &f.params {
+            self.declare(p, DeclKind::Param, sid, list);
+        }
+        // the body is the same block as the parameters' scope
+        for s in &f.body {
+            self.stmt(s);
+        }
+        self.pop();
+    }
+    fn block(&mut self, b: &[Stmt]) {
+        self.push();
+        for s in b {
+            self.stmt(s);
+        }
+        self.pop();
+    }
+    fn stmt(&mut self, s: &Stmt) {
+        let sid = s.sid;
+        match &s.kind {
+            StmtKind::Local { names, exprs } => {
+                // Lua: the scope of a local begins *after* the declaring statement
+                self.headers.push((sid, "local-rhs"));
+                for e in exprs {
+                    self.expr(e, "local-rhs", sid, None);
+                }
+                self.headers.pop();
+                for (o, _) in names {
+                    self.declare(o, DeclKind::Local, sid, sid);
+                }
+            }
+            StmtKind::Assign { targets, exprs } => {
+                for t in targets {
+                    match t {
+                        Target::Name(o) => self.use_(o, "assign-target", sid, None),
+                        Target::Field(p, _) => self.expr(p, "assign-target-prefix", sid, None),
+                    }
+                }
+                for e in exprs {
+                    self.expr(e, "assign-rhs", sid, None);
+                }
+            }
+            StmtKind::LocalFunc { name, func } => {
+                // `local function f` ≡ `local f; f = function … end`: f is visible in its body
+                self.declare(name, DeclKind::LocalFunc, sid, sid);
+                self.in_local_funcs.push(name.id);
+                self.func(func, sid);
+                self.in_local_funcs.pop();
+            }
+            StmtKind::Func { name, func, .. } => {
+                self.use_(name, "funcstat-name", sid, None);
+                self.func(func, sid);
+            }
+            StmtKind::CallStat(e) => self.expr(e, "call-stat", sid, None),
+            StmtKind::Do(b) => self.block(b),
+            StmtKind::While(c, b) => {
+                self.expr(c, "while-cond", sid, None);
+                self.block(b);
+            }
+            StmtKind::Repeat(b, c) => {
+                // the until-condition is evaluated inside the body's scope
+                self.push();
+                for st in b {
+                    self.stmt(st);
+                }
+                let rf = self.frames.len() - 1;
+                self.headers.push((sid, "repeat-until-cond"));
+                self.expr(c, "repeat-until-cond", sid, Some(rf));
+                self.headers.pop();
+                self.pop();
+            }
+            StmtKind::If(arms, els) => {
+                for (c, b) in arms {
+                    self.expr(c, "if-cond", sid, None);
+                    self.block(b);
+                }
+                if let Some(b) = els {
+                    self.block(b);
+                }
+            }
+            StmtKind::NumFor { var, start, limit, step, body } => {
+                // header expressions are evaluated before the loop variable exists
+                self.headers.push((sid, "numeric-for-header"));
+                self.expr(start, "numeric-for-start", sid, None);
+                self.expr(limit, "numeric-for-limit", sid, None);
+                if let Some(st) = step {
+                    self.expr(st, "numeric-for-step", sid, None);
+                }
+                self.headers.pop();
+                self.push();
+                self.declare(var, DeclKind::NumForVar, sid, sid);
+                self.block(body);
+                self.pop();
+            }
+            StmtKind::GenFor { vars, exprs, body } => {
+                self.headers.push((sid, "generic-for-explist"));
+                for e in exprs {
+                    self.expr(e, "generic-for-explist", sid, None);
+                }
+                self.headers.pop();
+                self.push();
+                for v in vars {
+                    self.declare(v, DeclKind::GenForVar, sid, sid);
+                }
+                self.block(body);
+                self.pop();
+            }
+            StmtKind::Return(es) => {
+                for e in es {
+                    self.expr(e, "return-expr", sid, None);
+                }
+            }
+            StmtKind::Break => {}
+        }
+    }
+}
+
+/// The scoping oracle: binding of every use according to Lua's lexical scoping rules.
+pub fn resolve(p: &Program) -> Resolution {
+    let mut w = Walk { res: Resolution::default(), frames: vec![Vec::new()], in_local_funcs: vec![], headers: vec![] };
+    for s in &p.body {
+        w.stmt(s);
+    }
+    w.res
+}
+
+// ───────────────────────────── shrinking helpers ─────────────────────────────
+
+pub fn stmt_ids(p: &Program) -> Vec<u32> {
+    fn rec(b: &[Stmt], out: &mut Vec<u32>) {
+        for s in b {
+            out.push(s.sid);
+            match &s.kind {
+                StmtKind::Local { exprs, .. } => exprs.iter().for_each(|e| rec_e(e, out)),
+                StmtKind::Assign { targets, exprs } => {
+                    for t in targets {
+                        if let Target::Field(p, _) = t {
+                            rec_e(p, out);
+                        }
+                    }
+                    exprs.iter().for_each(|e| rec_e(e, out));
+                }
+                StmtKind::LocalFunc { func, .. } | StmtKind::Func { func, .. } => rec(&func.body, out),
+                StmtKind::CallStat(e) => rec_e(e, out),
+                StmtKind::Do(b) => rec(b, out),
+                StmtKind::While(c, b) => {
+                    rec_e(c, out);
+                    rec(b, out);
+                }
+                StmtKind::Repeat(b, c) => {
+                    rec(b, out);
+                    rec_e(c, out);
+                }
+                StmtKind::If(arms, els) => {
+                    for (c, b) in arms {
+                        rec_e(c, out);
+                        rec(b, out);
+                    }
+                    if let Some(b) = els {
+                        rec(b, out);
+                    }
+                }
+                StmtKind::NumFor { start, limit, step, body, .. } => {
+                    rec_e(start, out);
+                    rec_e(limit, out);
+                    if let Some(s) = step {
+                        rec_e(s, out);
+                    }
+                    rec(body, out);
+                }
+                StmtKind::GenFor { exprs, body, .. } => {
+                    exprs.iter().for_each(|e| rec_e(e, out));
+                    rec(body, out);
+                }
+                StmtKind::Return(es) => es.iter().for_each(|e| rec_e(e, out)),
+                StmtKind::Break => {}
+            }
+        }
+    }
+    fn rec_e(e: &Expr, out: &mut Vec<u32>) {
+        match e {
+            Expr::Bin(_, l, r) => {
+                rec_e(l, out);
+                rec_e(r, out);
+            }
+            Expr::Not(x) | Expr::Paren(x) | Expr::Index(x, _) => rec_e(x, out),
+            Expr::Call(f, a) => {
+                rec_e(f, out);
+                a.iter().for_each(|e| rec_e(e, out));
+            }
+            Expr::Table(fs) => fs.iter().for_each(|(_, e)| rec_e(e, out)),
+            Expr::Func(f) => rec(&f.body, out),
+            _ => {}
+        }
+    }
+    let mut v = Vec::new();
+    rec(&p.body, &mut v);
+    v
+}
+
+/// Keep only statements whose id is in `keep` (a dropped statement disappears with its subtree).
+pub fn retain(p: &Program, keep: &BTreeSet<u32>) -> Program {
+    fn rb(b: &[Stmt], keep: &BTreeSet<u32>) -> Vec<Stmt> {
+        b.iter().filter(|s| keep.contains(&s.sid)).map(|s| rs(s, keep)).collect()
+    }
+    fn rf(f: &FuncBody, keep: &BTreeSet<u32>) -> FuncBody {
+        FuncBody { params: f.params.clone(), body: rb(&f.body, keep) }
+    }
+    fn re(e: &Expr, keep: &BTreeSet<u32>) -> Expr {
+        match e {
+            Expr::Bin(op, l, r) => Expr::Bin(op, Box::new(re(l, keep)), Box::new(re(r, keep))),
+            Expr::Not(x) => Expr::Not(Box::new(re(x, keep))),
+            Expr::Paren(x) => Expr::Paren(Box::new(re(x, keep))),
+            Expr::Index(x, f) => Expr::Index(Box::new(re(x, keep)), *f),
+            Expr::Call(f, a) => Expr::Call(Box::new(re(f, keep)), a.iter().map(|e| re(e, keep)).collect()),
+            Expr::Table(fs) => Expr::Table(fs.iter().map(|(k, e)| (*k, re(e, keep))).collect()),
+            Expr::Func(f) => Expr::Func(Box::new(rf(f, keep))),
+            other => other.clone(),
+        }
+    }
+    fn rs(s: &Stmt, keep: &BTreeSet<u32>) -> Stmt {
+        let kind = match &s.kind {
+            StmtKind::Local { names, exprs } => StmtKind::Local { names: names.clone(), exprs: exprs.iter().map(|e| re(e, keep)).collect() },
+            StmtKind::Assign { targets, exprs } => StmtKind::Assign {
+                targets: targets
+                    .iter()
+                    .map(|t| match t {
+                        Target::Name(o) => Target::Name(o.clone()),
+                        Target::Field(p, f) => Target::Field(re(p, keep), *f),
+                    })
+                    .collect(),
+                exprs: exprs.iter().map(|e| re(e, keep)).collect(),
+            },
+            StmtKind::LocalFunc { name, func } => StmtKind::LocalFunc { name: name.clone(), func: rf(func, keep) },
+            StmtKind::Func { name, path, method, func } => StmtKind::Func { name: name.clone(), path: path.clone(), method: *method, func: rf(func, keep) },
+            StmtKind::CallStat(e) => StmtKind::CallStat(re(e, keep)),
+            StmtKind::Do(b) => StmtKind::Do(rb(b, keep)),
+            StmtKind::While(c, b) => StmtKind::While(re(c, keep), rb(b, keep)),
+            StmtKind::Repeat(b, c) => StmtKind::Repeat(rb(b, keep), re(c, keep)),
+            StmtKind::If(arms, els) => StmtKind::If(arms.iter().map(|(c, b)| (re(c, keep), rb(b, keep))).collect(), els.as_ref().map(|b| rb(b, keep))),
+            StmtKind::NumFor { var, start, limit, step, body } => {
+                StmtKind::NumFor { var: var.clone(), start: re(start, keep), limit: re(limit, keep), step: step.as_ref().map(|e| re(e, keep)), body: rb(body, keep) }
+            }
+            StmtKind::GenFor { vars, exprs, body } => StmtKind::GenFor { vars: vars.clone(), exprs: exprs.iter().map(|e| re(e, keep)).collect(), body: rb(body, keep) },
+            StmtKind::Return(es) => StmtKind::Return(es.iter().map(|e| re(e, keep)).collect()),
+            StmtKind::Break => StmtKind::Break,
+        };
+        Stmt { sid: s.sid, kind }
+    }
+    Program { body: rb(&p.body, keep) }
+}
+
+/// Structural one-step reductions (after statement-level ddmin): the `n`-th reduction site in a
+/// deterministic traversal is applied; `None` when there are fewer than `n+1` sites.
+///
+/// Sites: a non-leaf expression → `0` or one of its direct sub-expressions; a compound statement
+/// → its body spliced into the parent; removal of one element of a name / parameter / variable /
+/// target / expression list; dropping an attribute, a step expression, an else branch, a
+/// function-statement path.
+pub fn reduce_nth(p: &Program, n: usize) -> Option<Program> {
+    let mut r = Red { target: n, count: 0, done: false };
+    let mut q = p.clone();
+    r.block(&mut q.body);
+    if r.done { Some(q) } else { None }
+}
+
+struct Red {
+    target: usize,
+    count: usize,
+    done: bool,
+}
+
+impl Red {
+    /// returns true when this site is the one to apply
+    fn hit(&mut self) -> bool {
+        if self.done {
+            return false;
+        }
+        let h = self.count == self.target;
+        self.count += 1;
+        if h {
+            self.done = true;
+        }
+        h
+    }
+    fn expr(&mut self, e: &mut Expr) {
+        if self.done {
+            return;
+        }
+        let children: Vec<Expr> = match e {
+            Expr::Bin(_, l, r) => vec![(**l).clone(), (**r).clone()],
+            Expr::Not(x) | Expr::Paren(x) | Expr::Index(x, _) => vec![(**x).clone()],
+            Expr::Call(f, a) => {
+                let mut v = vec![(**f).clone()];
+                v.extend(a.iter().cloned());
+                v
+            }
+            Expr::Table(fs) => fs.iter().map(|(_, e)| e.clone()).collect(),
+            Expr::Func(_) => vec![],
+            _ => return,
+        };
+        if self.hit() {
+            *e = Expr::Int(0);
+            return;
+        }
+        for c in children {
+            if self.hit() {
+                *e = c;
+                return;
+            }
+        }
+        match e {
+            Expr::Bin(_, l, r) => {
+                self.expr(l);
+                self.expr(r);
+            }
+            Expr::Not(x) | Expr::Paren(x) | Expr::Index(x, _) => self.expr(x),
+            Expr::Call(f, a) => {
+                self.expr(f);
+                for x in a.iter_mut() {
+                    self.expr(x);
+                }
+            }
+            Expr::Table(fs) => {
+                for (_, x) in fs.iter_mut() {
+                    self.expr(x);
+                }
+            }
+            Expr::Func(f) => self.func(f),
+            _ => {}
+        }
+    }
+    fn func(&mut self, f: &mut FuncBody) {
+        for i in 0..f.params.len() {
+            if self.hit() {
+                f.params.remove(i);
+                return;
+            }
+        }
+        self.block(&mut f.body);
+    }
+    fn exprs(&mut self, es: &mut Vec<Expr>, min: usize) {
+        if es.len() > min {
+            for i in 0..es.len() {
+                if self.hit() {
+                    es.remove(i);
+                    return;
+                }
+            }
+        }
+        for e in es.iter_mut() {
+            self.expr(e);
+        }
+    }
+    fn block(&mut self, b: &mut Vec<Stmt>) {
+        let mut i = 0;
+        while i < b.len() && !self.done {
+            // splice a compound statement's body into the parent
+            let inner: Option<Vec<Stmt>> = match &b[i].kind {
+                StmtKind::Do(x) | StmtKind::While(_, x) | StmtKind::Repeat(x, _) => Some(x.clone()),
+                StmtKind::NumFor { body, .. } | StmtKind::GenFor { body, .. } => Some(body.clone()),
+                StmtKind::If(arms, _) => arms.first().map(|a| a.1.clone()),
+                _ => None,
+            };
+            if let Some(inner) = inner {
+                if self.hit() {
+                    let inner: Vec<Stmt> = inner.into_iter().filter(|s| !matches!(s.kind, StmtKind::Break)).collect();
+                    b.splice(i..=i, inner);
+                    return;
+                }
+            }
+            // hoist the body of a closure that occurs in this statement (function statements,
+            // closures in expressions) into the parent block
+            for body in closure_bodies(&b[i]) {
+                if self.hit() {
+                    let inner: Vec<Stmt> = body.into_iter().filter(|s| !matches!(s.kind, StmtKind::Return(_))).collect();
+                    b.splice(i..=i, inner);
+                    return;
+                }
+            }
+            self.stmt(&mut b[i]);
+            i += 1;
+        }
+    }
+    fn stmt(&mut self, s: &mut Stmt) {
+        match &mut s.kind {
+            StmtKind::Local { names, exprs } => {
+                if names.len() > 1 {
+                    for i in 0..names.len() {
+                        if self.hit() {
+                            names.remove(i);
+                            if i < exprs.len() {
+                                exprs.remove(i);
+                            }
+                            return;
+                        }
+                    }
+                }
+                for (_, a) in names.iter_mut() {
+                    if *a != Attrib::None && self.hit() {
+                        *a = Attrib::None;
+                        return;
+                    }
+                }
+                self.exprs(exprs, 0);
+            }
+            StmtKind::Assign { targets, exprs } => {
+                if targets.len() > 1 {
+                    for i in 0..targets.len() {
+                        if self.hit() {
+                            targets.remove(i);
+                            return;
+                        }
+                    }
+                }
+                for t in targets.iter_mut() {
+                    if let Target::Field(p, _) = t {
+                        self.expr(p);
+                    }
+                }
+                self.exprs(exprs, 1);
+            }
+            StmtKind::LocalFunc { func, .. } => self.func(func),
+            StmtKind::Func { path, method, func, .. } => {
+                if path.len() + method.iter().count() > 1 || (!path.is_empty() && method.is_none()) {
+                    if self.hit() {
+                        if !path.is_empty() {
+                            path.pop();
+                        } else {
+                            *method = None;
+                        }
+                        return;
+                    }
+                }
+                self.func(func)
+            }
+            StmtKind::CallStat(e) => {
+                // keep it a call: reduce inside only
+                if let Expr::Call(f, a) = e {
+                    self.exprs(a, 0);
+                    if let Expr::Index(..) = **f {
+                        self.expr(f);
+                        if !matches!(**f, Expr::Use(_) | Expr::Index(..) | Expr::Call(..) | Expr::Paren(_)) {
+                            // must stay a prefix expression; Int(0) is printed parenthesised by `callee`
+                        }
+                    }
+                }
+            }
+            StmtKind::Do(b) => self.block(b),
+            StmtKind::While(c, b) => {
+                self.expr(c);
+                self.block(b);
+            }
+            StmtKind::Repeat(b, c) => {
+                self.block(b);
+                self.expr(c);
+            }
+            StmtKind::If(arms, els) => {
+                if els.is_some() && self.hit() {
+                    *els = None;
+                    return;
+                }
+                if arms.len() > 1 {
+                    for i in 0..arms.len() {
+                        if self.hit() {
+                            arms.remove(i);
+                            return;
+                        }
+                    }
+                }
+                for (c, b) in arms.iter_mut() {
+                    self.expr(c);
+                    self.block(b);
+                }
+                if let Some(b) = els {
+                    self.block(b);
+                }
+            }
+            StmtKind::NumFor { start, limit, step, body, .. } => {
+                if step.is_some() && self.hit() {
+                    *step = None;
+                    return;
+                }
+                self.expr(start);
+                self.expr(limit);
+                if let Some(st) = step {
+                    self.expr(st);
+                }
+                self.block(body);
+            }
+            StmtKind::GenFor { vars, exprs, body } => {
+                if vars.len() > 1 {
+                    for i in 0..vars.len() {
+                        if self.hit() {
+                            vars.remove(i);
+                            return;
+                        }
+                    }
+                }
+                self.exprs(exprs, 1);
+                self.block(body);
+            }
+            StmtKind::Return(es) => self.exprs(es, 0),
+            StmtKind::Break => {}
+        }
+    }
+}
+
+/// bodies of the outermost closures occurring in a statement (not descending into blocks)
+fn closure_bodies(s: &Stmt) -> Vec<Vec<Stmt>> {
+    fn ex(e: &Expr, out: &mut Vec<Vec<Stmt>>) {
+        match e {
+            Expr::Func(f) => out.push(f.body.clone()),
+            Expr::Bin(_, l, r) => {
+                ex(l, out);
+                ex(r, out);
+            }
+            Expr::Not(x) | Expr::Paren(x) | Expr::Index(x, _) => ex(x, out),
+            Expr::Call(f, a) => {
+                ex(f, out);
+                a.iter().for_each(|e| ex(e, out));
+            }
+            Expr::Table(fs) => fs.iter().for_each(|(_, e)| ex(e, out)),
+            _ => {}
+        }
+    }
+    let mut out = Vec::new();
+    match &s.kind {
+        StmtKind::Local { exprs, .. } | StmtKind::Return(exprs) => exprs.iter().for_each(|e| ex(e, &mut out)),
+        StmtKind::Assign { targets, exprs } => {
+            for t in targets {
+                if let Target::Field(p, _) = t {
+                    ex(p, &mut out);
+                }
+            }
+            exprs.iter().for_each(|e| ex(e, &mut out));
+        }
+        StmtKind::LocalFunc { func, .. } | StmtKind::Func { func, .. } => out.push(func.body.clone()),
+        StmtKind::CallStat(e) => ex(e, &mut out),
+        StmtKind::While(c, _) | StmtKind::Repeat(_, c) => ex(c, &mut out),
+        StmtKind::If(arms, _) => arms.iter().for_each(|(c, _)| ex(c, &mut out)),
+        StmtKind::NumFor { start, limit, step, .. } => {
+            ex(start, &mut out);
+            ex(limit, &mut out);
+            if let Some(s) = step {
+                ex(s, &mut out);
+            }
+        }
+        StmtKind::GenFor { exprs, .. } => exprs.iter().for_each(|e| ex(e, &mut out)),
+        _ => {}
+    }
+    out
+}
+
+/// Number of name uses in the program.
+pub fn count_uses(p: &Program) -> usize {
+    resolve(p).uses.len()
+}
